@@ -432,6 +432,7 @@ func suiteC09(c *Ctx) []Suite {
 		// templates with numbered ellipses: counts under names that name none of them (the other
 		// spelling of one that exists, one index too far) are unknown keys like any other
 		{Name: "fill/unknown-ellipsis-keys", Gen: func(c *Ctx) []Case { return ellipsisCases(c, c.N(600), 3, 3) }},
+		{Name: "fill/ellipsis-count-and-values-in-one-call", Gen: func(c *Ctx) []Case { return ellipsisOneCall(c, c.N(500)) }},
 		{Name: "fill/many-variables", Gen: func(c *Ctx) []Case {
 			// items with 9 to 40 variables, filled partly, in one and in two steps: what is left
 			// stays in its original order
@@ -590,6 +591,12 @@ func suiteC09(c *Ctx) []Suite {
 					keys = append(keys, v.name)
 				}
 				m := completeMsgDesc(c.R, tmpl)
+				if c.R.Intn(4) == 0 {
+					// system bytes of another length than four: the template's producer and the
+					// direct construction normalise them in the same way
+					m.Sys = make([]byte, pick(c.R, 0, 1, 2, 3, 5, 7, 8))
+					c.R.Read(m.Sys)
+				}
 				sessFirst := c.R.Intn(2) == 0
 				steps := []string{m.newStep()}
 				if sessFirst {
@@ -1015,4 +1022,112 @@ func suiteC10(c *Ctx) []Suite {
 			return out
 		}},
 	}
+}
+
+// ellipsisOneCall: a message whose list holds an ellipsis, filled through the MESSAGE with one
+// assignment that carries the repeat count together with values for the names the expansion
+// creates (svid[0], svid[1], ...). Oracles on the real code: the message's variables after the
+// fill are those of the item filled with the same map; one call = count first, values second;
+// once everything is filled the message encodes like the directly constructed one.
+func ellipsisOneCall(c *Ctx, n int) []Case {
+	var out []Case
+	for i := 0; i < n; i++ {
+		names := &nameGen{}
+		rep := &Node{Kind: "L"}
+		k := 1 + c.R.Intn(3)
+		for j := 0; j < k; j++ {
+			switch c.R.Intn(5) {
+			case 0:
+				rep.Slots = append(rep.Slots, Slot{IsVar: true, Name: names.fresh(c.R)})
+			case 1:
+				rep.Slots = append(rep.Slots, Slot{Child: &Node{Kind: "AV", Name: names.fresh(c.R), Min: 0, Max: -1}})
+			case 2:
+				inner := genArray(c.R, &GenOpt{MaxSlots: 2, PVar: 0.7, names: names}, "U", 2)
+				rep.Slots = append(rep.Slots, Slot{Child: &Node{Kind: "L", Slots: []Slot{{Child: inner}, {Child: &Node{Kind: "A", Str: []byte("k")}}}}})
+			default:
+				ak := arrayKinds[c.R.Intn(len(arrayKinds))]
+				rep.Slots = append(rep.Slots, Slot{Child: genArray(c.R, &GenOpt{MaxSlots: 3, PVar: 0.6, names: names}, ak.k, ak.w)})
+			}
+		}
+		ell := []string{"...", "...[0]"}[c.R.Intn(2)]
+		cnt := c.R.Intn(4)
+		tmpl := cloneNode(rep)
+		tmpl.Slots = append(tmpl.Slots, Slot{IsVar: true, Name: ell})
+		trail := c.R.Intn(2) == 0
+		if trail {
+			tmpl.Slots = append(tmpl.Slots, Slot{Child: &Node{Kind: "A", Str: []byte("end")}})
+		}
+		if c.R.Intn(3) == 0 {
+			tmpl = &Node{Kind: "L", Slots: []Slot{{Child: &Node{Kind: "U", W: 1, Slots: []Slot{{U: uint64(cnt)}}}}, {Child: tmpl}}}
+		}
+		// the names after the expansion, from the real item-level fill with the count alone
+		var it ast.ItemNode
+		var after []string
+		if pan, _ := safely(func() {
+			it = tmpl.Build()
+			after = it.FillVariables(map[string]interface{}{ell: cnt}).Variables()
+		}); pan {
+			continue
+		}
+		// value for an expanded name: by the type of the variable it was copied from
+		var vars []varRef
+		collectVars(tmpl, &vars)
+		base := map[string]varRef{}
+		for _, v := range vars {
+			base[v.name] = v
+		}
+		asg := map[string]FillVal{ell: {Tok: sintTok(0, int64(cnt))}}
+		keys := []string{ell}
+		var valueKeys []string
+		all := true
+		for _, nm := range after {
+			b := nm
+			if _, exact := base[nm]; !exact {
+				if j := strings.IndexByte(nm, '['); j > 0 {
+					b = nm[:j]
+				}
+			}
+			v, ok := base[b]
+			if !ok || strings.HasPrefix(nm, "...") {
+				all = false
+				continue
+			}
+			if c.R.Intn(5) == 0 {
+				all = false
+				continue
+			}
+			fv := genFillVal(c.R, v.node, 0, nil)
+			for len(fv.Open) > 0 {
+				fv = genFillVal(c.R, v.node, 0, nil)
+			}
+			asg[nm] = fv
+			keys = append(keys, nm)
+			valueKeys = append(valueKeys, nm)
+		}
+		c.R.Shuffle(len(keys), func(a, b int) { keys[a], keys[b] = keys[b], keys[a] })
+		m := genMsgDesc(c.R, tmpl, 0)
+		m.HSMS = false
+		one := "mprog " + m.newStep() + " | fill " + envTokens(asg, keys) + " | wait 0 | sess 3 00000009"
+		implOne := implEval(one)
+		cs := Case{Op: one, Impl: implOne, Decisive: true, Nontrivial: len(valueKeys) > 0,
+			Tags: []string{fmt.Sprintf("one-call count:%d all:%v", cnt, all)}}
+		parts := strings.Split(implOne, " | ")
+		itemRes := implEval("fillitem " + tmpl.Proto() + " | " + envTokens(asg, keys))
+		if len(parts) >= 2 && !strings.Contains(implOne, "PANIC") && !strings.Contains(itemRes, "PANIC") {
+			if mv, iv := project(parts[1], "vars"), project(lastField(itemRes), "vars"); mv != iv {
+				cs.Oracle = "the message filled with one assignment lists " + mv + ", its item filled with the same assignment " + iv
+			}
+			two := "mprog " + m.newStep() + " | fill 1 " + hxs(ell) + " " + sintTok(0, int64(cnt)) + " | fill " + envTokens(asg, valueKeys) + " | wait 0 | sess 3 00000009"
+			if implTwo := implEval(two); cs.Oracle == "" && !strings.Contains(implTwo, "PANIC") {
+				if a, b := project(lastField(implOne), "vars bytes str"), project(lastField(implTwo), "vars bytes str"); a != b {
+					cs.Oracle = "count and values in one call differ from count first, values second: " + firstDiff(a, b)
+				}
+			}
+			if all && cs.Oracle == "" && m.W != 2 && project(lastField(implOne), "bytes") == "bytes=-" {
+				cs.Oracle = "every variable was given a value, wait bit and session id are set, and the message does not encode"
+			}
+		}
+		out = append(out, cs)
+	}
+	return out
 }
